@@ -274,6 +274,40 @@ func genDriver(repo, out string) {
 		}
 		sizes = append(sizes, fmt.Sprintf("(%s, %d)", leanStr(name), size))
 	}
+	// --- the local address of the socket: how `bind` is derived from the configuration, under which condition
+	// it is replaced, and that the socket is opened on it
+	binds := []string{}
+	for _, name := range []string{"Broadcast", "BroadcastTo", "SendUDP", "SendTCP"} {
+		fn := findFunc(f, name, "ut0311")
+		from, cond, local := "?", "?", "?"
+		if fn != nil {
+			ast.Inspect(fn.Body, func(n ast.Node) bool {
+				switch s := n.(type) {
+				case *ast.AssignStmt:
+					if len(s.Lhs) == 1 && src(s.Lhs[0]) == "bind" && s.Tok == token.DEFINE {
+						from = src(s.Rhs[0])
+					}
+				case *ast.IfStmt:
+					for _, st := range s.Body.List {
+						if as, ok := st.(*ast.AssignStmt); ok && len(as.Lhs) == 1 && src(as.Lhs[0]) == "bind" {
+							cond = src(s.Cond)
+						}
+					}
+				case *ast.CallExpr:
+					if src(s.Fun) == "net.ListenUDP" && len(s.Args) == 2 {
+						local = src(s.Args[1])
+					}
+				case *ast.KeyValueExpr:
+					if src(s.Key) == "LocalAddr" {
+						local = src(s.Value)
+					}
+				}
+				return true
+			})
+		}
+		binds = append(binds, fmt.Sprintf("(%s, [%s, %s, %s])", leanStr(name), leanStr(from), leanStr(cond), leanStr(local)))
+	}
+	fmt.Fprintf(&b, "/-- per request method: what `bind` is initialised from, the condition under which it is replaced by the wildcard address, what the socket is opened on -/\ndef bindFacts : List (String × List String) := [%s]\n\n", strings.Join(binds, ",\n  "))
 	fmt.Fprintf(&b, "/-- size of the receive buffer each method reads a datagram into (0 = not recognised) -/\ndef bufSizes : List (String × Nat) := [%s]\n\n", strings.Join(sizes, ", "))
 	b.WriteString("end Uhppote.Gen.Driver\n")
 	writeIfChanged(filepath.Join(out, "Driver.lean"), b.String())
